@@ -46,6 +46,10 @@ func genStreams(r *simrt.RNG, tier string, variant int, prop string) Plan {
 		}
 		total += n
 		op := Op{Kind: "sub", Client: r.Intn(len(p.Clients)), Tok: tok, N: n, Hold: r.Bool(0.3)}
+		if r.Bool(0.3) {
+			op.Kind = "subt" // struct elements, optionally large (multi-frame values)
+			op.Size = Pick(r, []int{0, 0, 50, 5000})
+		}
 		tok++
 		if r.Bool(0.15) {
 			op.Stall = true
@@ -81,7 +85,7 @@ func genStreams(r *simrt.RNG, tier string, variant int, prop string) Plan {
 			// cancel the context of one subscription
 			var subs []int
 			for _, op := range p.Ops {
-				if op.Kind == "sub" {
+				if op.Kind == "sub" || op.Kind == "subt" {
 					subs = append(subs, op.Tok)
 				}
 			}
@@ -108,7 +112,7 @@ func runStreams(e *Env, p *Plan) {
 	var cmu sync.Mutex
 	cancelled := map[int]bool{}
 	for _, op := range p.Ops {
-		if op.Kind == "sub" {
+		if op.Kind == "sub" || op.Kind == "subt" {
 			ctx, cancel := context.WithCancel(context.Background())
 			cancels[op.Tok], ctxs[op.Tok] = cancel, ctx
 		}
@@ -175,7 +179,7 @@ func runStreams(e *Env, p *Plan) {
 
 	// ---- oracles ---------------------------------------------------------------
 	for _, op := range p.Ops {
-		if op.Kind != "sub" {
+		if op.Kind != "sub" && op.Kind != "subt" {
 			continue
 		}
 		st := e.Sub(op.Tok)
@@ -260,7 +264,7 @@ func (w *World) checkStreamWire(oracle string) {
 	for _, p := range w.WSPipes() {
 		subReq := map[string]int{} // request id -> tok
 		for _, m := range w.Wire(p, "c2s") {
-			if m.Method == "T.Sub" && m.HasID {
+			if (m.Method == "T.Sub" || m.Method == "T.SubT") && m.HasID {
 				subReq[m.ID] = tokOfParams(m.Params)
 			}
 		}
